@@ -947,7 +947,17 @@ theorem RangeStructure.commitmentsFromProof_isOk {s : RangeStructure} {n : Nat} 
       obtain ⟨i, hi, h | h⟩ := hc q hq r hr
       · rw [h, rangeResults_d]; exact (hdv i hi).1
       · rw [h, rangeResults_v _ _ (by omega)]; exact (hdv i hi).2
-    · intro _ _; exact GoM.isOk_pure _
+    · intro _ _
+      apply GoM.isOk_bind
+      · apply List.mapM_isOk
+        intro x hx
+        obtain ⟨i, hi, hxi⟩ := List.getElem_of_mem hx
+        obtain ⟨hl, _, hall⟩ := RangeStructure.verifyProofStructure_facts hv
+        obtain ⟨cv, _, _, hcv, _⟩ := hall i (by omega)
+        rw [List.getElem?_eq_getElem hi, hxi] at hcv
+        cases Option.some.inj hcv
+        exact ⟨cv, rfl⟩
+      · intro _ _; exact GoM.isOk_pure _
 
 
 /-! ## 12. list traversals in `GoE` -/
